@@ -455,11 +455,24 @@ func (e *escaper) escapeBranch(c context, n *parse.BranchNode, nodeName string) 
 		// The "true" branch of a "range" node can execute multiple times.
 		// We check that executing n.List once results in the same context
 		// as executing n.List twice.
-		// (A loop body that is itself an attribute name is accepted: the name it repeats
-		// is not treated as split.)
+		// (A loop body that is nothing but an attribute name is accepted: the name it
+		// repeats is not treated as split, unless the name decides how other attributes
+		// or the content of the element are treated.)
 		r := c0
-		r.nameOpen, r.tagNameOpen = false, false
-		c1, _ := e.escapeListConditionally(r, n.List, nil)
+		if name := bareName(n.List); name != "" && name != "rel" && name != "type" {
+			r.nameOpen, r.tagNameOpen = false, false
+		}
+		c1, e1 := e.escapeListForReentry(r, n.List)
+		if c1.state != stateError {
+			if err := e.sameEdits(e1, n.List); err != nil {
+				// From the second iteration on the body starts in the context it ended in: it
+				// must be rewritten the same way, since it is rewritten only once.
+				return context{
+					state: stateError,
+					err:   errorf(ErrRangeLoopReentry, n, n.Line, "on range loop re-entry: %s", err),
+				}
+			}
+		}
 		c0 = join(c0, c1, n, nodeName)
 		if c0.state == stateError {
 			// Make clear that this is a problem on loop re-entry
@@ -483,6 +496,91 @@ func (e *escaper) escapeList(c context, n *parse.ListNode) context {
 		c = e.escape(c, m)
 	}
 	return c
+}
+
+// bareName returns the lower-case text of the list if it consists of a single text
+// node holding nothing but the characters of a name, and "" otherwise.
+func bareName(n *parse.ListNode) string {
+	if n == nil || len(n.Nodes) != 1 {
+		return ""
+	}
+	t, ok := n.Nodes[0].(*parse.TextNode)
+	if !ok || bytes.ContainsAny(t.Text, " \t\n\f\r/>=\"'<") {
+		return ""
+	}
+	return asciiLower(t.Text)
+}
+
+// escapeListForReentry escapes a range body once more, starting in the context the
+// body ended in. The edits are not preserved; the escaper that holds them is returned.
+func (e *escaper) escapeListForReentry(c context, n *parse.ListNode) (context, *escaper) {
+	e1 := makeEscaper(e.ns)
+	for k, v := range e.output {
+		e1.output[k] = v
+	}
+	e1.start = e.start
+	c = e1.escapeList(c, n)
+	return c, &e1
+}
+
+// sameEdits reports whether the escaper e1, which has analysed the list n once more,
+// wants to rewrite its action, template and text nodes the way e has recorded.
+func (e *escaper) sameEdits(e1 *escaper, n *parse.ListNode) error {
+	var err error
+	var walk func(l *parse.ListNode)
+	walk = func(l *parse.ListNode) {
+		if l == nil {
+			return
+		}
+		for _, m := range l.Nodes {
+			if err != nil {
+				return
+			}
+			switch m := m.(type) {
+			case *parse.ActionNode:
+				s, ok := e.actionNodeEdits[m]
+				s1, ok1 := e1.actionNodeEdits[m]
+				if ok && ok1 && strings.Join(s, "|") != strings.Join(s1, "|") {
+					err = fmt.Errorf("action %v needs the sanitizers %v in the first iteration and %v in later ones", m, s, s1)
+				}
+			case *parse.TemplateNode:
+				s, ok := e.templateNodeEdits[m]
+				if !ok {
+					s = m.Name
+				}
+				s1, ok1 := e1.templateNodeEdits[m]
+				if !ok1 {
+					s1 = m.Name
+				}
+				if s != s1 {
+					err = fmt.Errorf("%v is called in different contexts in the first and in later iterations (%q, %q)", m, s, s1)
+				}
+			case *parse.TextNode:
+				s, ok := e.textNodeEdits[m]
+				if !ok {
+					s = m.Text
+				}
+				s1, ok1 := e1.textNodeEdits[m]
+				if !ok1 {
+					s1 = m.Text
+				}
+				if !bytes.Equal(s, s1) {
+					err = fmt.Errorf("text %.32q is rewritten differently in the first and in later iterations", m.Text)
+				}
+			case *parse.IfNode:
+				walk(m.List)
+				walk(m.ElseList)
+			case *parse.RangeNode:
+				walk(m.List)
+				walk(m.ElseList)
+			case *parse.WithNode:
+				walk(m.List)
+				walk(m.ElseList)
+			}
+		}
+	}
+	walk(n)
+	return err
 }
 
 // escapeListConditionally escapes a list node but only preserves edits and
